@@ -29,8 +29,64 @@ def base(a, mul, add):
     return (a * mul + (a // 64) * 13 + add) % 256
 
 
+ORIGINS = ('direct', 'empty-game', 'p8', 'p8-map-first', 'p8-label-last', 'p8-label-first', 'png')
+_LOADED = {}
+
+
+def loaded_game(origin, mul, add, tmp):
+    """A Game as the loaders build it (section objects and their links are the loader's), holding the pattern memory.
+    The file is produced once per (origin, pattern); every history works on a deep copy (which keeps the links)."""
+    import copy
+    import os
+    import re
+    import tempfile
+    from pico8.game import game, file as gfile
+    from .. import cartio
+    key = (origin, mul, add)
+    if key not in _LOADED:
+        mem = bytes(base(a, mul, add) for a in range(0x4300))
+        if origin == 'empty-game':
+            g = game.Game.make_empty_game()
+        else:
+            src = cartio.make_game(mem, b'x=1\n', cartio.label_bytes((5, 9), {}), 16)
+            d = tempfile.mkdtemp(prefix='c17_', dir=tmp)
+            if origin == 'png':
+                fp = os.path.join(d, 'c.p8.png')
+                gfile.to_file(src, fp)
+            else:
+                fp = os.path.join(d, 'c.p8')
+                gfile.to_file(src, fp)
+                text = open(fp, 'rb').read()
+                parts = re.split(rb'(?m)^(?=__\w+__$)', text)
+                head, secs = parts[0], {re.match(rb'__(\w+)__', x).group(1).decode(): x for x in parts[1:]}
+                order = {'p8': ['lua', 'gfx', 'label', 'gff', 'map', 'sfx', 'music'],
+                         'p8-map-first': ['lua', 'map', 'gfx', 'gff', 'label', 'sfx', 'music'],
+                         'p8-label-last': ['lua', 'gfx', 'gff', 'map', 'sfx', 'music', 'label'],
+                         'p8-label-first': ['label', 'lua', 'music', 'sfx', 'gfx', 'map', 'gff']}[origin]
+                if sorted(order) != sorted(secs):
+                    raise core.MachineryError('C17: .p8 sections %s' % sorted(secs))
+                with open(fp, 'wb') as f:
+                    f.write(head + b''.join(secs[k] for k in order))
+            g = gfile.from_file(fp)
+        # bring every region to the pattern in place (keeps the objects and their links; the .p8 text cannot hold one music bit)
+        off = 0
+        for n, size in SIZES:
+            sec = getattr(g, n)
+            if len(sec._data) != size:
+                raise core.MachineryError('C17: loaded %s has %d bytes' % (n, len(sec._data)))
+            sec._data[:] = mem[off:off + size]
+            off += size
+        _LOADED[key] = g
+    return copy.deepcopy(_LOADED[key])
+
+
 class Cart:
-    def __init__(self, mul, add):
+    def __init__(self, mul, add, origin='direct', tmp=None):
+        if origin != 'direct':
+            g = loaded_game(origin, mul, add, tmp)
+            self.gfx, self.map, self.gff, self.music, self.sfx = g.gfx, g.map, g.gff, g.music, g.sfx
+            self.game = g
+            return
         from pico8.gfx import gfx
         from pico8.map import map as pmap
         from pico8.gff import gff
@@ -122,7 +178,8 @@ def replay_histories(ctx, steps, mul, add):
     good = 0
     for sid, lst in sorted(by.items()):
         lst.sort(key=lambda s: s['step'])
-        cart = Cart(mul, add)
+        origin = ORIGINS[sid % len(ORIGINS)] if sid % 2 else 'direct'
+        cart = Cart(mul, add, origin, ctx.tmp)
         hist = []
         for s in lst:
             op = s['op']
@@ -140,7 +197,7 @@ def replay_histories(ctx, steps, mul, add):
                 expect[int(k)] = v
             sig = None
             if err is not None:
-                sig, detail = 'raises/%s/%s' % (op['n'], edge_class(op)), err
+                sig, detail = 'raises/%s/%s' % (op['n'], edge_class(op)), err + ' [cart from %s]' % origin
             elif cart.sizes() != [sz for _, sz in SIZES]:
                 sig, detail = 'region-size/%s/%s' % (op['n'], edge_class(op)), 'sizes %s' % cart.sizes()
             elif op['n'] == 'set_channel' and op['pat'] < 0:
@@ -159,13 +216,13 @@ def replay_histories(ctx, steps, mul, add):
             elif cart.mem() != bytes(expect):
                 got = cart.mem()
                 diffs = [a for a in range(0x4300) if got[a] != expect[a]]
-                sig, detail = 'memory/%s/%s' % (op['n'], edge_class(op)), '%d bytes differ from the model, first at 0x%04x (got %02x, model %02x)' % (
-                    len(diffs), diffs[0], got[diffs[0]], expect[diffs[0]])
+                sig, detail = 'memory/%s/%s' % (op['n'], edge_class(op)), '%d bytes differ from the model, first at 0x%04x (got %02x, model %02x) [cart from %s]' % (
+                    len(diffs), diffs[0], got[diffs[0]], expect[diffs[0]], origin)
             elif want_ret != [] and ret != want_ret:
                 sig, detail = 'return/%s/%s' % (op['n'], edge_class(op)), 'returned %r, model %r' % (str(ret)[:80], str(want_ret)[:80])
             if sig:
                 ctx.violation(sig, '%s after %d steps: %s; op %s' % (sig, len(hist), detail, json.dumps(op)[:160]),
-                              {'kind': 'history', 'ops': hist, 'mul': mul, 'add': add})
+                              {'kind': 'history', 'ops': hist, 'mul': mul, 'add': add, 'origin': origin})
                 break
             good += 1
     return good
@@ -223,7 +280,7 @@ def run(ctx):
 
 def replay(ctx, path):
     rec = json.load(open(path))['replay']
-    cart = Cart(rec['mul'], rec['add'])
+    cart = Cart(rec['mul'], rec['add'], rec.get('origin', 'direct'), ctx.tmp)
     for op in rec['ops']:
         try:
             cart.do(op)
